@@ -23,6 +23,55 @@ SELECTED_BY = {          # which rules the witness selectors of universe/u_ptree
 }
 
 
+SUBS_EXCEPTIONS = {      # rules whose subs_t deliberately lists less than their match() calls (confirmed by reading; one reason each)
+    T + 'raw_string': 'subs_t is empty_list on purpose (the alternative is left as a comment in the source): the only rules it calls are raw_string_open (no sub-rules) and its '
+                      'own nested rule `content`, whose subs_t lists the close condition and the content rules, so a collecting frame exists wherever nodes can be collected; '
+                      'after content succeeded raw_string cannot fail',
+}
+
+
+def subs_vs_calls(R, kinds):
+    from ..exc import walk
+    from .. import frame
+    db = core.DB(core.extract(list(units.RULES)))
+    calls = collections.defaultdict(set); sites = {}
+    for fn in db.order:
+        cls = fn.get('cls') or {}
+        rule = cls.get('s')
+        if not rule or not rule.startswith(T) or fn['n'] != 'match' or '/tao/pegtl/' not in fn['pat']: continue
+        for c in walk(fn.get('body'), lambda n: n.get('k') == 'call' and n.get('cn') == 'match', []):
+            cta = c.get('cta') or []
+            if len(cta) < 4 or cta[2].get('k') != 'tmpl' or cta[3].get('k') != 'tmpl': continue      # match< A, M, Action, Control >: a rule attempt
+            cc = c.get('cc') or {}
+            if cc.get('s') == rule: continue                                                         # another overload of its own match
+            t = frame.control_rule(cc)
+            if not t or t == cc.get('s'): continue                                                   # Rule::match called directly (match_no_control): not through a control
+            calls[rule].add(t); sites[(rule, t)] = core.rel(c.get('loc') or '')
+    def reach(rule):
+        seen = set(); todo = [rule]
+        while todo:
+            x = todo.pop()
+            if x in seen: continue
+            seen.add(x); todo.extend(ptree.subs_of(db, x) or [])
+        return seen
+    for rule, ts in sorted(calls.items()):
+        if ptree.subs_of(db, rule) is None: continue          # not a rule (action helpers such as change_action have a match() of another kind)
+        S = reach(rule)
+        def ok(t, depth=0):
+            if t in S: return True
+            if not t.startswith(T + 'internal::') or depth > 6: return False
+            return all(ok(u, depth + 1) for u in calls.get(t, ()))      # an internal helper that is not listed: what it calls must be
+        missing = sorted(t for t in ts if not ok(t))
+        tn = (db.records.get(rule) or {}).get('tn') or rule.split('<')[0]
+        kinds['subs'] += 1
+        if missing and tn in SUBS_EXCEPTIONS:
+            kinds['subs-exception'] += 1; missing = []
+        R.ob(ok=not missing, key=('subs', rule))
+        for t in missing:
+            R.violation('T-subs', sites[(rule, t)].rsplit(':', 2)[0] + '::' + tn.replace(T, ''), 'match() of %s attempts %s, which is not found from the rule through subs_t (%s): the parse tree takes the rule for a leaf although selected rules can be reached below it, and keeps the nodes of its failed attempts' % (
+                rule.replace(T, '')[:100], t.replace(T, '')[:80], ', '.join(x.replace(T, '') for x in (ptree.subs_of(db, rule) or [])) or 'empty'), {'rule': rule, 'called': t}, key=('S', tn, t.split('<')[0]))
+
+
 def run(tier):
     R = core.Result('C12', tier)
     db = core.DB(core.extract(list(units.PTREE)))
@@ -104,6 +153,10 @@ def run(tier):
         for pr in probs:
             what = 'apply_mode::%s rewind_mode::%s' % ('action' if info['A'] else 'nothing', 'required' if info['M'] == 0 else 'optional')
             R.violation('T-entry', core.rel(callee.get('pat') or '').split(':')[0] + '::' + callee['q'].split('<')[0].replace(T, '') + '::match', '%s [%s, handler %s]' % (pr[1], what, hk.split('::state_handler')[-1]), {'function': callee['disp'], 'row': pr[2]}, key=('E', pr[1], what, hk.split('::state_handler')[-1].split(',', 1)[-1]))
+    # (A3) the leaf optimisation and the selection read Rule::subs_t; it is only as good as subs_t is complete: every rule whose match() a rule's match()
+    # reaches through Control< T >::match is found from the rule through subs_t (transitively), possibly through internal helper rules that are not
+    # themselves listed.  Sibling cross-check of two descriptions of the same thing: the call graph of the instantiated bodies and the meta data.
+    subs_vs_calls(R, kinds)
     # (B)
     for mc, rule, S, L, key in ptree.handlers(db):
         selname = None
@@ -147,7 +200,7 @@ def run(tier):
             R.ob(ok=not probs, key=fn['disp'])
             for p in probs: R.violation('T-transform', 'contrib/parse_tree.hpp::%s::transform' % cq[len(PT):], p, key=('X', cq, p))
     R.cov['obligations_by_kind'] = dict(kinds)
-    for k, fl in (('hook', 100), ('handler', 45), ('parse', 3), ('transform', 3), ('forward', 60), ('forward-unwind', 4), ('entry', 40), ('entry-enabled', 30)):
+    for k, fl in (('hook', 100), ('handler', 45), ('parse', 3), ('transform', 3), ('forward', 60), ('forward-unwind', 4), ('entry', 40), ('entry-enabled', 30), ('subs', 100)):
         if kinds.get(k, 0) < fl: R.broke('only %d %s obligations (floor %d)' % (kinds.get(k, 0), k, fl))
     R.assumptions = ['the tree-equals-derivation statement for whole runs is the composition of these clauses with C08 (balanced hooks) and C01/C02; it is not explored as a trace property',
                      'user-supplied node types and selectors with their own transform are outside the statement']
